@@ -524,8 +524,9 @@ def m_slice_range(ex, f, a):
             if is_sym(lo): lo = ex.concretize(lo, 'range start')
             if is_sym(hi): hi = ex.concretize(hi, 'range end')
             if lo > hi or hi > n: raise Panic('slice index out of range')
-            try: return Str([ord(ch) for ch in raw[lo:hi].decode()])
-            except UnicodeDecodeError: raise Panic('byte index is not a char boundary')
+            def boundary(i): return i == n or (raw[i] & 0xC0) != 0x80        # str::is_char_boundary: BOTH ends are checked, also of an empty range
+            if not boundary(lo) or not boundary(hi): raise Panic('byte index %d is not a char boundary' % (lo if not boundary(lo) else hi))
+            return Str([ord(ch) for ch in raw[lo:hi].decode()])
         n = len(bs)
     else:
         bs = v.items if isinstance(v, PyVec) else v.fields; n = len(bs)
